@@ -357,6 +357,9 @@ fn step(w: &mut World, kinds: &[Kind], st: &Step, flags: &mut Flags) -> Option<(
                 }
             };
             // ---- execute
+            // what other sessions' accepted writes pushed to this session since its last command (watch
+            // notifications it was entitled to) must not be attributed to the command sent now
+            w.sessions[*s].drain();
             let (r, msgs) = w.sessions[*s].send(&w.node, &line);
             w.node.pump();
             let refused = is_refusal(&r);
